@@ -44,6 +44,7 @@ type Beh struct {
 	B       int  `json:"b"`
 	PKind   int  `json:"pk,omitempty"`
 	Timeout bool `json:"timeout,omitempty"`
+	Wrap    bool `json:"wrap,omitempty"` // net.Error panic values: raise an error WRAPPING the net.Error (as codecs do)
 	ID      int  `json:"id,omitempty"`
 }
 
@@ -217,7 +218,13 @@ func (p *Probe) on(kind int, ctx netty.HandlerContext, arg interface{}) {
 			p.Vals.raise(nil)
 			m[b.ID] = 1 // a genuine runtime error
 		case PNetErr:
-			panic(p.Vals.raise(&NetErr{b.ID, b.Timeout}))
+			// the net.Error itself, or an error wrapping it, as the frame codecs and utils.Assert
+			// produce ("read header fail ...: %w"): errors.As must find it either way
+			var e error = &NetErr{b.ID, b.Timeout}
+			if b.Wrap {
+				e = fmt.Errorf("wrapped by a codec: %w", e)
+			}
+			panic(p.Vals.raise(e))
 		}
 	case BWriteBack:
 		ctx.Write([]byte{0xAB, byte(p.ID)})
